@@ -30,6 +30,10 @@ import (
 //                                   buffer that RefreshAllTopics does not drop), or the subscriber resumed on
 //                                   such a buffer without a snapshot
 //  restore-keeps-publish-queue      same, but the event was still in publishCh at the restore
+//  query-index-behind-content       the snapshot's index (the index the direct query reports) is smaller than the
+//                                   index of a commit whose effect the snapshot (the query result) already
+//                                   contains: the view equals a LATER committed state, or an event published
+//                                   before the subscription started is neither delivered nor above the snapshot index
 //  connect-native-flag-removed      a service instance registered with Connect.Native is re-registered without
 //                                   it: it leaves the connect query result but no event is emitted on the
 //                                   connect topic
@@ -42,6 +46,7 @@ type oBatch struct {
 	epoch     int
 	published bool
 	pubEpoch  int
+	pubStep   int
 }
 
 type oHist struct {
@@ -68,6 +73,7 @@ type oClient struct {
 	epoch      int // store incarnation of the last snapshot applied
 	taint      string
 	view       []KV
+	subStep    int
 }
 
 func touches(ts TS, e Ev) bool {
@@ -197,9 +203,10 @@ func oracle(steps []Step, drained bool) []Failure {
 		st := &steps[i]
 		fail := func(c int, kind, cause, msg string) {
 			if cl := clients[c]; cl != nil {
+				// the gap defect is transient (attributed delivery by delivery); the others leave the view wrong
 				if cause == "unknown" && cl.taint != "" {
 					cause = cl.taint
-				} else if cause != "unknown" {
+				} else if cause != "unknown" && cause != "subscribe-in-commit-publish-gap" && cl.taint == "" {
 					cl.taint = cause
 				}
 			}
@@ -262,7 +269,7 @@ func oracle(steps []Step, drained bool) []Failure {
 			if st.Did && len(queue) > 0 {
 				b := queue[0]
 				queue = queue[1:]
-				b.published, b.pubEpoch = true, epoch
+				b.published, b.pubEpoch, b.pubStep = true, epoch, i
 				for _, t := range b.close {
 					for _, c := range clients {
 						if c.subscribed && !c.closed && c.tok == t && c.mustClose == "" {
@@ -289,7 +296,7 @@ func oracle(steps []Step, drained bool) []Failure {
 			}
 			c.subscribed, c.closed, c.mustClose = true, false, ""
 			c.reqIdx, c.first, c.snapPhase = st.ReqIdx, true, st.ReqIdx == 0
-			c.delivered, c.haveStart, c.blocked = nil, false, false
+			c.delivered, c.haveStart, c.blocked, c.subStep = nil, false, false, i
 		case "unsub":
 			if c := clients[st.C]; c != nil {
 				c.subscribed = false
@@ -365,7 +372,13 @@ func oracle(steps []Step, drained bool) []Failure {
 				}
 				c.lastIdx = st.CIdx
 				if want := contentAt(c.ts, st.CIdx); !sameRows(want, st.View) {
-					fail(st.C, "view-mismatch", viewCause(c, st.View, want), fmt.Sprintf("after snapshot@%d view %v, query at that index %v", st.CIdx, st.View, want))
+					cause := viewCause(c, st.View, want)
+					for _, h := range hist[c.ts] {
+						if cause == "unknown" && h.idx > st.CIdx && sameRows(h.rows, st.View) {
+							cause = "query-index-behind-content"
+						}
+					}
+					fail(st.C, "view-mismatch", cause, fmt.Sprintf("after snapshot@%d view %v, query at that index %v", st.CIdx, st.View, want))
 				}
 			case "ev":
 				for _, e := range st.OEvs {
@@ -426,6 +439,8 @@ func oracle(steps []Step, drained bool) []Failure {
 				c.start = c.reqIdx
 			}
 			var want []uint64
+			cause := "unknown"
+			early := map[uint64]bool{}
 			for _, b := range committed {
 				if b.idx <= c.start || b.epoch != epoch {
 					continue
@@ -433,12 +448,12 @@ func oracle(steps []Step, drained bool) []Failure {
 				for _, e := range b.evs {
 					if touches(c.ts, e) {
 						want = append(want, b.idx)
+						early[b.idx] = b.published && b.pubStep < c.subStep
 						break
 					}
 				}
 			}
 			var got []uint64
-			cause := "unknown"
 			for _, k := range c.delivered {
 				if k > c.start {
 					got = append(got, k)
@@ -451,6 +466,19 @@ func oracle(steps []Step, drained bool) []Failure {
 				kind := "unexpected-event"
 				if len(got) < len(want) {
 					kind = "skipped-event"
+					// every commit not delivered was published before this subscription started, so the
+					// snapshot contains it although the snapshot's index is smaller
+					allEarly, gi := true, 0
+					for _, k := range want {
+						if gi < len(got) && got[gi] == k {
+							gi++
+						} else if !early[k] {
+							allEarly = false
+						}
+					}
+					if allEarly && gi == len(got) && cause == "unknown" {
+						cause = "query-index-behind-content"
+					}
 				}
 				fail(kind, cause, fmt.Sprintf("subject %v: commits after index %d: %v, delivered: %v", c.ts, c.start, want, got))
 			}
